@@ -292,11 +292,12 @@ var headerNames = map[string]Header{
 func readHeader(line string) map[Header]int {
 	tokens := Explode(line, []rune{',', ';', '\t', ' '})
 	headers := make(map[Header]int)
-	for kHeader, vHeader := range headerNames {
-		for i, token := range tokens {
-			if token == kHeader {
+	// columns in file order: if a file carries two spellings of one quantity, the first column is used
+	// (ranging over the name table would pick one of them at random)
+	for i, token := range tokens {
+		if vHeader, ok := headerNames[token]; ok {
+			if _, seen := headers[vHeader]; !seen {
 				headers[vHeader] = i
-				break
 			}
 		}
 	}
